@@ -39,4 +39,33 @@ def expectedBlocks : List BlockSite := [
   ⟨"utils.Timer.TakeTimeout", "select", "", ["recv:ticker.C", "recv:utils.Timer.ctx.Done()"], false⟩ ]
 
 
+/-- the same inventory without the names of the functions the operations sit in, without the selects that have a
+    `default` arm (they never block), sorted: what `Props/C13.lean` compares with the regenerated facts — moving a
+    blocking operation into a helper or renaming a function leaves it unchanged; a bare send, a dropped `ctx.Done()` arm
+    or a new blocking call does not -/
+def expectedBlockKinds : List (String × String × List String × Bool) := [
+  ("accept", "root.Acceptor.listener", [], false),
+  ("netread", "<local>", [], false),
+  ("netwrite", "root.Conn.conn", [], false),
+  ("recv", "root.DefaultHandler.errors", [], false),
+  ("select", "", ["recv:<local>", "recv:root.Acceptor.ctx.Done()"], false),
+  ("select", "", ["recv:<local>", "recv:time.After"], false),
+  ("select", "", ["recv:AcceptorHandler.Outgoing()", "recv:ctx.Done()"], false),
+  ("select", "", ["recv:Conn.Reader()", "recv:ctx.Done()"], false),
+  ("select", "", ["recv:root.Conn.ctx.Done()", "send:root.Conn.reader"], false),
+  ("select", "", ["recv:root.DefaultHandler.ctx.Done()", "recv:root.DefaultHandler.errors", "recv:root.DefaultHandler.incoming"], false),
+  ("select", "", ["recv:root.DefaultHandler.ctx.Done()", "send:root.DefaultHandler.incoming"], false),
+  ("select", "", ["recv:root.DefaultHandler.ctx.Done()", "send:root.DefaultHandler.out"], false),
+  ("select", "", ["recv:root.Initiator.conn.Reader()", "recv:root.Initiator.ctx.Done()"], false),
+  ("select", "", ["recv:root.Initiator.ctx.Done()", "recv:root.Initiator.handler.Context().Done()"], false),
+  ("select", "", ["recv:root.Initiator.ctx.Done()", "recv:root.Initiator.handler.Outgoing()"], false),
+  ("select", "", ["recv:ticker.C", "recv:utils.Timer.ctx.Done()"], false),
+  ("send", "<local>", [], false),
+  ("send", "root.DefaultHandler.errors", [], false),
+  ("wait", "<local>", [], false),
+  ("wait", "errgroup", [], false),
+  ("wait", "errgroup", [], false),
+  ("wait", "errgroup", [], false)
+]
+
 end ConnSys
